@@ -88,7 +88,7 @@ fn one(r: &mut Rng, rep: &mut Report, i: u64, shard: usize, seed: u64) {
 
 pub fn explore(ctx: &Ctx, shard: usize, n: usize) -> Report {
     let seed = ctx.seed;
-    let rep = drive::cases(ctx, shard, n, RULE, STREAM, 480, 12000, |r, rep, i| one(r, rep, i, shard, seed));
+    let rep = drive::cases(ctx, shard, n, RULE, STREAM, 480, 100000, |r, rep, i| one(r, rep, i, shard, seed));
     cleanup_root("c19", shard);
     rep
 }
